@@ -205,7 +205,7 @@ const preludeCore = `(declare-sort Str 0)
 
 var preludeBlocks = []struct{ trigger, text string }{
 	{"str.of", `(assert (forall ((c (Array Int Int)) (o Int) (n Int)) (! (=> (<= 0 n) (= (slen (str.of c o n)) n)) :pattern ((str.of c o n)))))
-(assert (forall ((c (Array Int Int)) (o Int) (n Int) (i Int)) (! (=> (and (<= 0 i) (< i n)) (= (sat (str.of c o n) i) (select c (+ o i)))) :pattern ((sat (str.of c o n) i)))))
+(assert (forall ((c (Array Int Int)) (o Int) (n Int) (i Int)) (! (=> (and (<= 0 i) (< i n) (<= 0 (select c (+ o i))) (<= (select c (+ o i)) 255)) (= (sat (str.of c o n) i) (select c (+ o i)))) :pattern ((sat (str.of c o n) i)))))
 `},
 	{"sconcat", `(assert (forall ((a Str) (b Str)) (! (= (slen (sconcat a b)) (+ (slen a) (slen b))) :pattern ((sconcat a b)))))
 (assert (forall ((a Str) (b Str) (i Int)) (! (=> (and (<= 0 i) (< i (slen a))) (= (sat (sconcat a b) i) (sat a i))) :pattern ((sat (sconcat a b) i)))))
